@@ -258,8 +258,22 @@ def plan_c01(prop, tier, seed, t0):
                 PullMaxes={2},
                 OpKinds={"CreateTopic", "CreateSub", "DeleteSub", "DeleteTopic", "Publish", "Pull", "Ack", "ModAck", "Advance"},
                 MaxOps=6, MaxMsgs=2)
+    def extra(quick, sd):
+        # backlogs beyond the pull cap (1000) and beyond 16 bits, judged on sizes (light recording)
+        out = []
+        for i, (n, mx) in enumerate([(2500, 2000), (1001, 1001), (3000, 1000), (66000, 65535), (1500, 2147483647)]):
+            steps = [call(1, op="CreateTopic", name=T1), call(1, op="CreateSub", name=S1, topic=T1, ack=10),
+                     call(1, op="Publish", topic=T1, msgs=[{"p": "bulk:%d" % n}])]
+            for _ in range(4):
+                steps.append(call(2, op="Pull", sub=S1, max=mx, ri=True))
+            steps += [{"do": "advance", "ms": 11000}, call(2, op="Pull", sub=S1, max=mx, ri=True),
+                      call(2, op="ModAck", sub=S1, acks=[{"d": 1}, {"d": 2}], secs=0), call(2, op="Pull", sub=S1, max=mx, ri=True)]
+            s = scn("c01-big-%d" % i, steps, seed=sd + i)
+            s["meta"]["light"] = True
+            out.append(s)
+        return out
     return core_check(prop, tier, seed, t0, over, explore=[("mixed", 48, 1500), ("data", 24, 1500)], caps=(16, 1, 2),
-                      thorough={"mc": dict(MaxOps=7, MaxMsgs=3)})
+                      extra_scenarios=extra, thorough={"mc": dict(MaxOps=7, MaxMsgs=3)})
 
 
 def plan_c02(prop, tier, seed, t0):
@@ -277,12 +291,51 @@ def plan_c03(prop, tier, seed, t0):
                       thorough={"mc": dict(MaxOps=7, MaxMsgs=3)})
 
 
+def deadline_probe_scenarios(seed, quick):
+    """Several deliveries whose deadlines lie close together, and a request to the subscription 1 ms
+    before, at, and just after every deadline (and between them). The instants are aimed with the
+    implementation's rounding rule (deadline = hand-out + D + phase); the verdict never uses them."""
+    out = []
+    phases = (0, 1, 37, 50, 99) if quick else tuple(range(0, 100, 3))
+    gaps = ((1,), (3,), (5, 1), (40,), (150, 2), (99,)) if quick else ((1,), (2,), (3,), (4,), (5,), (6,), (5, 1), (1, 1, 1), (40,), (99,), (100,), (150, 2), (998,))
+    n = 0
+    for p in phases:
+        for gap in gaps:
+            n += 1
+            d_ms = 10000 if n % 2 else 12000
+            steps = [call(1, op="CreateTopic", name=T1), call(1, op="CreateSub", name=S1, topic=T1, ack=d_ms // 1000),
+                     call(1, op="Publish", topic=T1, msgs=[{"p": "d%d" % j} for j in range(len(gap) + 2)])]
+            t = 0
+            dls = []
+            steps.append(call(2, op="Pull", sub=S1, max=1, ri=True))
+            dls.append(t + d_ms + (p + t) % 100)
+            for g in gap:
+                steps.append({"do": "advance", "ms": g})
+                t += g
+                steps.append(call(2, op="Pull", sub=S1, max=1, ri=True))
+                dls.append(t + d_ms + (p + t) % 100)
+            probes = set()
+            for dl in dls:
+                probes.update([dl - 1, dl, dl + 1, dl + 3])
+            for a, b in zip(sorted(dls), sorted(dls)[1:]):
+                if b - a >= 2:
+                    probes.add((a + b) // 2)
+            for at in sorted(x for x in probes if x > t):
+                steps.append({"do": "advance", "ms": at - t})
+                t = at
+                steps.append(call(3, op="GetSub", name=S1))
+            steps += [{"do": "advance", "ms": 1500}, call(3, op="GetSub", name=S1), {"do": "drain", "c": 9}]
+            out.append(scn("c04-probe-%d" % n, steps, seed=seed + n, phase=p))
+    return out
+
+
 def plan_c04(prop, tier, seed, t0):
     over = dict(AckSecs={0, 3}, ModSecs=set(), Advances={1, 2, 3}, AckRefs={1},
                 OpKinds={"CreateTopic", "CreateSub", "Publish", "Pull", "PullWait", "Ack", "Advance"},
                 SubNames={S1, S2}, MaxOps=6, MaxNow=7)
     phases = tuple(range(0, 100, 7)) + (99, 1)
     return core_check(prop, tier, seed, t0, over, explore=[("data", 32, 1000)], phases=phases,
+                      extra_scenarios=lambda quick, sd: deadline_probe_scenarios(sd, quick),
                       adv_extra=(0, 101, 1, 99), thorough={"mc": dict(MaxOps=7, MaxMsgs=3, MaxNow=8)})
 
 
@@ -701,6 +754,19 @@ def c06_scenarios(n_seeds, seed):
             {"do": "gate", "name": "s.turn", "turns": -1},
             Q, {"do": "advance", "ms": 50}, Q,
             {"do": "abort", "h": "p2"}, {"do": "drain", "c": 9}], seed=sd, cap=cap))
+        # W9: a backlog beyond 65535 messages (16-bit arithmetic in the pull path): several waiting
+        # consumers, one huge publish; light recording, judged on the reported backlog sizes
+        if k < 3:
+            n_big = (65546, 65736, 131082)[k]
+            s9 = scn("c06-W9-%d" % k, pre + [
+                start("p1", 3, op="Pull", sub=S1, max=10, ri=False), start("p2", 4, op="Pull", sub=S1, max=10, ri=False),
+                {"do": "sopen", "h": "s", "c": 5, "sub": S1, "max": 100}, {"do": "settle"},
+                call(2, op="Publish", topic=T1, msgs=[{"p": "bulk:%d" % n_big}]), Q,
+                {"do": "wait", "h": "p1"}, {"do": "wait", "h": "p2"}, Q,
+                start("p3", 6, op="Pull", sub=S1, max=10, ri=False), Q, {"do": "wait", "h": "p3"},
+                {"do": "sabandon", "h": "s"}], seed=sd, cap=cap)
+            s9["meta"]["light"] = True
+            out.append(s9)
         # W6: a consumer is dropped while it is being woken and its pull waits for room in a
         # full mailbox (the wake-up must be handed on)
         if cap <= 2:
